@@ -8,6 +8,7 @@ package dbSync
 import (
 	"fmt"
 	"net"
+	"runtime"
 	"strconv"
 	"strings"
 	"sync"
@@ -82,8 +83,17 @@ func c04eSync(t *testing.T, c c04eCase, tgt *mredis.Server) (abort bool, psyncs 
 				}
 				return "+FULLRESYNC run-e2e " + strconv.Itoa(c04eBase)
 			}
+			// every Sync() run allocates the production-size stream buffers (32 MiB + 8 MiB); so that
+			// they become garbage, the run is torn down at the end: all connections are cut and every
+			// goroutine of the tool that dials again ends there
+			tearing := false
+			var opened []*memconn.Conn
 			hook.SetDialHook(func(network, addr string) (net.Conn, error, bool) {
+				if tearing {
+					runtime.Goexit()
+				}
 				cc, sc := memconn.Pair(addr)
+				opened = append(opened, sc)
 				if addr == syncSource {
 					go m.Serve(sc)
 				} else {
@@ -118,6 +128,20 @@ func c04eSync(t *testing.T, c c04eCase, tgt *mredis.Server) (abort bool, psyncs 
 			}
 			synctest.Wait()
 			psyncs, acks = m.Psyncs(), m.Acks()
+			mu.Lock()
+			aborted := abort
+			mu.Unlock()
+			tearing = true
+			for _, sc := range opened {
+				sc.Cut()
+			}
+			for i := 0; i < 4; i++ {
+				time.Sleep(time.Second)
+				synctest.Wait()
+			}
+			mu.Lock()
+			abort = aborted // aborts caused by the tear-down do not count
+			mu.Unlock()
 		})
 	}()
 	return
